@@ -181,6 +181,22 @@ func RunC09(oc *fw.Outcome, seed int64, n int, single bool, multi int) {
 			oc.Evals++
 			cur := Run(m1, s1, names)
 			if cur.Status == "parse" || cur.Status == "init" {
+				doc := true
+				for gap := range plSub.Comments {
+					if gap < len(p.SubToks) && !p.SubToks[gap].Doc {
+						doc = false
+					}
+				}
+				for gap := range plMain.Comments {
+					if gap < len(p.MainToks) && !p.MainToks[gap].Doc {
+						doc = false
+					}
+				}
+				if doc {
+					oc.Violate(what+"/sim:noparse", "the program no longer loads when only comments at documented placeholders / whitespace are inserted: "+clip(cur.Err, 200),
+						map[string]any{"plain_sub": clip(sub0, 2500), "decorated_main": clip(m1, 1500), "decorated_sub": clip(s1, 2500), "plan_sub": plSub, "plan_main": plMain})
+					return false
+				}
 				oc.Tag("decorated-variant-does-not-parse")
 				return true
 			}
@@ -206,7 +222,7 @@ func RunC09(oc *fw.Outcome, seed int64, n int, single bool, multi int) {
 			for gap := 0; gap <= len(p.SubToks); gap++ {
 				for _, style := range []string{"#", "//", "/*"} {
 					serial++
-					c := render.NewComment(r, serial)
+					c := render.NewPlainComment(r, serial)
 					c.Style = style
 					check(canon, render.Plan{Mode: "canonical", Comments: map[int][]render.Comment{gap: {c}}}, slotAt(p.SubToks, gap)+"/"+styleName(c))
 					oc.Tag("slot:" + slotAt(p.SubToks, gap))
@@ -214,7 +230,7 @@ func RunC09(oc *fw.Outcome, seed int64, n int, single bool, multi int) {
 			}
 			for gap := 0; gap <= len(p.MainToks); gap += 1 + r.Intn(3) {
 				serial++
-				c := render.NewComment(r, serial)
+				c := render.NewPlainComment(r, serial)
 				check(render.Plan{Mode: "canonical", Comments: map[int][]render.Comment{gap: {c}}}, canon, slotAt(p.MainToks, gap)+"/"+styleName(c))
 			}
 			continue
@@ -223,12 +239,12 @@ func RunC09(oc *fw.Outcome, seed int64, n int, single bool, multi int) {
 			pl := render.Plan{Mode: []string{"canonical", "random"}[r.Intn(2)], Seed: r.Int63(), Comments: map[int][]render.Comment{}}
 			for m := 1 + r.Intn(8); m > 0; m-- {
 				gap := r.Intn(len(p.SubToks) + 1)
-				pl.Comments[gap] = append(pl.Comments[gap], render.NewComment(r, m))
+				pl.Comments[gap] = append(pl.Comments[gap], render.NewPlainComment(r, m))
 			}
 			plm := render.Plan{Mode: "canonical", Comments: map[int][]render.Comment{}}
 			if r.Intn(2) == 0 && len(p.MainToks) > 0 {
 				gap := r.Intn(len(p.MainToks) + 1)
-				plm.Comments[gap] = append(plm.Comments[gap], render.NewComment(r, 99))
+				plm.Comments[gap] = append(plm.Comments[gap], render.NewPlainComment(r, 99))
 			}
 			// localise: on failure re-test each decorated gap alone (the key names the placeholder)
 			m1, s1 := render.Render(p.MainToks, plm), render.Render(p.SubToks, pl)
